@@ -50,7 +50,7 @@ def gen_knobs(rng, prop, profile):
     if rng.random() < 0.15:
         # unusual but legal object names (query strings, ports-like colons, nested paths, spaces, '=' and ';')
         odd = ["r0?x=1&y=2", "a/b/r%d", "r%d v2", "k=v;r%d", "r%d:8080", "r\u00e9sum\u00e9%d", "api/obs?station=%d",
-               "api/obs?station=%d"]
+               "api/obs?station=%d", "track#%d", "cal%%41_%d.bin", "obs?id=%d", "track#%d"]
         for i in range(nres):
             if rng.random() < 0.4:
                 t = rng.choice(odd)
@@ -70,6 +70,10 @@ def gen_knobs(rng, prop, profile):
             comment = "" if i < nres else "c%d" % rng.randint(1, 3)
             scheme = wchoice(rng, scheme_w)
             if scheme == "file" and "/" in res:
+                scheme = "sim"
+            if scheme == "https" and ("#" in res or "%" in res):
+                # an http client does not send a fragment and normalises percent-escapes: such names would test
+                # the fidelity of the http stand-in, not the cache
                 scheme = "sim"
             if (scheme, res, comment) not in used:
                 break
@@ -284,7 +288,7 @@ def fault_kinds_for(kd, parallel=True):
         kinds += ["HTTP_404", "HTTP_5XX", "CONN_ERR", "TIMEOUT", "HTTP_DROP_MID"]
     kinds += ["EIO", "ENOSPC", "SHORT_WRITE", "EMFILE", "RENAME_EIO"]
     if kd["pp"]:
-        kinds += ["PP_ERR_BEFORE", "PP_ERR_MID", "PP_ERR_AFTER"]
+        kinds += ["PP_ERR_BEFORE", "PP_ERR_MID", "PP_ERR_AFTER", "PP_NOTFOUND", "PP_NOTFOUND_AFTER"]
         if not parallel:
             kinds += ["PP_INTERRUPT_MID"]
     return kinds
@@ -368,6 +372,10 @@ def make_fault(rng, op_id, kind, key):
         f["frac"] = rng.choice([0.0, 0.3, 0.9])
     if kind in ("EMFILE", "RENAME_EIO"):
         f["nth"] = 0
+    if kind == "HTTP_404":
+        f["status"] = rng.choice([404, 404, 404, 410, 403, 401])
+    if kind == "HTTP_5XX":
+        f["status"] = rng.choice([503, 503, 500, 502, 504, 429])
     if kind in ("HTTP_5XX", "CONN_ERR", "TIMEOUT", "HTTP_404", "ERR_BEFORE", "ERR_MID", "NOTFOUND", "RET_FALSE_MID") and rng.random() < 0.5:
         f["persist"] = True  # the remote stays in that state for the whole operation (matters for code that retries)
     return f
@@ -380,6 +388,20 @@ def gen_crash(rng, knobs, ops):
     nkeys = len(op.get("keys", [1]))
     at = wchoice(rng, [(50, rng.randint(0, 6 * nkeys)), (30, rng.randint(0, 3)), (20, rng.randint(0, 25 * nkeys))])
     return {"op": op["id"], "at": at, "torn": rng.choice([None, 0.0, 0.5, 0.99])}
+
+
+def gen_second_crash(rng, knobs, ops, first):
+    """The process dies a second time: while it reopens the directory after the first crash (start-up scan,
+    start-up eviction, rewrite of the configuration), or in a later request (typically the retry)."""
+    idx = next((i for i, o in enumerate(ops) if o["id"] == first["op"]), None)
+    later = [o for o in (ops[idx + 1:] if idx is not None else []) if o["op"] == "GET" and o["keys"]]
+    if later and rng.random() < 0.6:
+        op = later[0] if rng.random() < 0.6 else rng.choice(later)
+        nkeys = len(op["keys"])
+        return {"op": op["id"], "at": rng.randint(0, 6 * nkeys), "torn": rng.choice([None, 0.0, 0.5, 0.99])}
+    nxt = ops[idx + 1] if idx is not None and idx + 1 < len(ops) else None
+    target = nxt["id"] if (nxt and nxt["op"] == "REOPEN") else "%s.r" % first["op"]
+    return {"op": target, "at": rng.randint(0, 3), "torn": rng.choice([None, 0.5])}
 
 
 def zombie_profile(rng, rec):
@@ -490,4 +512,6 @@ def generate(prop, seed, profile=None):
             zombie_profile(rng, rec)
         if rng.random() < 0.35:
             rec["crash"] = gen_crash(rng, knobs, rec["ops"])
+            if rng.random() < 0.3:
+                rec["crash2"] = gen_second_crash(rng, knobs, rec["ops"], rec["crash"])
     return rec
